@@ -5,7 +5,7 @@ from ..core import AnalysisError, u, walk_local, enclosing_stmt
 from ..lib import (construct, std_facts, def_of, copy_kind, at_least, facts_at,
                    calls_of_node, stored_names, in_subtree, returns_of)
 from ..resolve import store_accesses
-from .common import hasheq, dunder_sweep, instance_state, finalize_conflict_guard
+from .common import hasheq, dunder_sweep, instance_state, finalize_conflict_guard, method_selector_rule
 
 SM = 'selector_map.SelectorMap'
 
@@ -159,6 +159,12 @@ def run(ctx):
       v = assigns[fld].value
       k = copy_kind(v)
       ok = at_least(k, need)
+      if fld not in nested and k == 'DEEP':
+        ctx.fail('C08.copy', smc + '.copy',
+                 'the copy\'s %s is deep-copied (`%s`) although its values are the caller\'s objects: a copied map (clear_config keeps the constants '
+                 'through one) hands out *copies* of the stored objects -- `%%name` no longer yields that very object, gin.REQUIRED loses its identity, '
+                 'and a value that cannot be deep-copied makes the copy raise' % (fld, u(v)), cp.loc(assigns[fld]), instance=fld + ':values-by-identity')
+        continue
       ctx.check(ok, 'C08.copy', smc + '.copy',
                 'the copy\'s %s is un-shared to the depth of the structure (%s)' % (fld, k),
                 'the copy\'s %s is `%s` (%s) but the structure is %s: the copy shares %s with its original, so a later insert '
@@ -269,6 +275,7 @@ def run(ctx):
 
   instance_state(ctx, 'C08.sync', SM, set(fields), 'a third field must be kept in step with the tree and the map by every mutator')
   finalize_conflict_guard(ctx, 'C08.hook-keys')
+  method_selector_rule(ctx, 'C08.minimal')
 
   # ---- C08.exact-first
   mt = sm.methods.get('matching_selectors')
